@@ -37,6 +37,10 @@ def confirm(pid, n):
         print("worktree not clean:", out)
         return 1
     demo_cmd = meta.get("demo_cmd", "cd %s/demo && cargo run --offline" % src)
+    # sub-agents sometimes append prose after the command ("cmd   (needs gcc; ...)")
+    import re
+    demo_cmd = re.sub(r"\s{2,}\(.*$", "", demo_cmd, flags=re.S).strip()
+    meta["demo_cmd"] = demo_cmd
     # 1. demo on the clean tree
     rc0, out0 = sh(demo_cmd, cwd=wt)
     res["demo_clean_rc"] = rc0
